@@ -24,7 +24,7 @@ RULE = ("generated generator bodies (actions spanning yields, logging, try/excep
         "current_action() IS the top of the generator's own shadow stack (action current at first resumption + actions entered "
         "since); in the driver after every step it IS what it was before. Differential: the same script on the UNDECORATED generator "
         "must give the same trace of yielded values, received values, thrown-in and raised exception objects, close() behaviour and "
-        "StopIteration.value. Tape: every in-generator action/message sits under its shadow parent. non-trivial = script with a "
+        "StopIteration.value; part of the yielded values are exception instances passed as ordinary data (StopIteration with and without a value, GeneratorExit, KeyError). Tape: every in-generator action/message sits under its shadow parent. non-trivial = script with a "
         "context switch between resumptions of a generator holding an open action, or a throw/close; distinct by (bodies, script)")
 ASSUMPTIONS = ["Twisted is absent: eliot.twisted.inline_callbacks = inlineCallbacks(eliot_friendly_generator_function(f)); the wrapper is the monitored object",
                "'started' means the first resumption of the generator"]
@@ -143,6 +143,27 @@ class Mon(object):
                 self.problems.append("%s: current_action() is action nid %r, the generator's own context is nid %r" % (where, self.nid_of(got), self.nid_of(expected)))
 
 
+def _yielded(val):
+    """What a generator yields for op value `val`: mostly a plain tuple; sometimes an exception instance as ordinary data (a source
+    reporting "exhausted" with the StopIteration it caught, a GeneratorExit/error object passed along), which is a value like any other."""
+    if isinstance(val, int) and val % 6 == 1:
+        k = (val // 6) % 4
+        if k == 0:
+            return StopIteration(("carried", val))
+        if k == 1:
+            return StopIteration()
+        if k == 2:
+            return GeneratorExit("as data %d" % val)
+        return KeyError("as data %d" % val)
+    return ("y", val)
+
+
+def _norm_out(out):
+    if isinstance(out, BaseException):
+        return ("exception instance yielded as data", type(out).__name__, repr(out.args))
+    return out
+
+
 def make_genfunc(ops, mon, label, decorated, ret=None):
     """Build the generator function for `ops`. Its shadow stack starts with the action current at first resumption."""
 
@@ -151,7 +172,7 @@ def make_genfunc(ops, mon, label, decorated, ret=None):
             k = op["k"]
             if k == "yield":
                 try:
-                    got = yield ("y", op["val"])
+                    got = yield _yielded(op["val"])
                     mon.trace.append((label, "recv", mon.sent.get(id(got), got) if isinstance(got, BaseException) else got))
                 except BaseException as e:
                     cls = CATCH.get(op.get("catch"))
@@ -355,7 +376,7 @@ def execute(bodies, script, decorated, tape, create_ctxs=None, epilogues=None):
                 warnings.simplefilter("error" if STRICT_WARNINGS[0] else "ignore")
                 if st["op"] == "next":
                     out = next(g)
-                    ev = ("yielded", out)
+                    ev = ("yielded", _norm_out(out))
                 elif st["op"] == "send":
                     v = ("v", st["val"])
                     if st["val"] % 5 == 0:
@@ -364,7 +385,7 @@ def execute(bodies, script, decorated, tape, create_ctxs=None, epilogues=None):
                         mon.sent[id(v)] = "data-exception-%d" % st["val"]
                         sent_objs[st["val"]] = v
                     out = g.send(v)
-                    ev = ("yielded", out)
+                    ev = ("yielded", _norm_out(out))
                 elif st["op"] == "throw":
                     e = EXC[st["exc"]]("thrown %d" % st["val"])
                     mon.sent[id(e)] = "thrown-%d" % st["val"]
@@ -377,7 +398,7 @@ def execute(bodies, script, decorated, tape, create_ctxs=None, epilogues=None):
                             pass
                         mon.had_tb.add(id(e))
                     out = g.throw(e)
-                    ev = ("yielded", out)
+                    ev = ("yielded", _norm_out(out))
                 else:
                     g.close()
                     ev = ("closed",)
